@@ -12,6 +12,27 @@ TEST_HEADERS = os.path.join(REPO, "crates", "cpp", "test_headers")
 HELPER = os.path.join(REPO, "crates", "cpp", "helper-types")
 
 
+def gxx_errors(err):
+    """[(file class, message, site, raw line)] of a g++ diagnostic text"""
+    lines = err.splitlines()
+    out = []
+    for i, l in enumerate(lines):
+        m = re.match(r"^\s*(?:/verif/work/C31/out/\d+/)?([^:\s]+):(\d+):(\d+): (?:fatal )?error: (.*)$", l)
+        if not m:
+            continue
+        f = m.group(1)
+        where = "exports-stub-header" if re.match(r"exports-[^:]*\.h$", f) else re.sub(r"[0-9]+", "N", os.path.basename(f))
+        site = ""
+        for k in lines[i + 1:i + 4]:
+            mm = re.match(r"^\s*\d+ \| (.*)$", k)
+            if mm:
+                site = re.sub(r"\d+", "N", re.sub(r"\s+", " ", mm.group(1)).strip())[:70]
+                break
+        msg = m.group(4).split("In file included from")[0].strip()      # head and tail of a long text glued together
+        out.append((where, re.sub(r"[0-9]+", "N", msg), site, l.strip()))
+    return list(dict.fromkeys(out))
+
+
 def run(tier):
     t0 = time.time()
     wd = workdir(PID)
@@ -25,7 +46,7 @@ def run(tier):
     paths = write_worlds(worlds, wdir)
     adv = adversarial_worlds("cpp")
     for n, (name, wit) in enumerate(adv):
-        d = os.path.join(wdir, f"adv{n}")
+        d = os.path.join(wdir, f"adv-{name}")
         os.makedirs(d, exist_ok=True)
         open(os.path.join(d, "w.wit"), "w").write(wit)
         paths.append(os.path.join(d, "w.wit"))
@@ -46,21 +67,22 @@ def run(tier):
             continue
         for cpp in sorted(glob.glob(os.path.join(u["out"], "*.cpp"))):
             cmds.append((f"{u['i']}:{os.path.basename(cpp)}",
-                         ["g++", "-std=c++20", "-fsyntax-only", "-w", "-fpermissive", "-D_GLIBCXX_USE_DEPRECATED=0", "-I", u["out"], "-I", TEST_HEADERS, "-I", HELPER, cpp]))
+                         ["g++", "-std=c++20", "-fsyntax-only", "-w", "-fpermissive", "-fmax-errors=4", "-fno-diagnostics-color", "-D_GLIBCXX_USE_DEPRECATED=0", "-I", u["out"], "-I", TEST_HEADERS, "-I", HELPER, cpp]))
     res = run_commands(cmds, wd, workers=16, timeout_ms=120000)
     ncompiled = 0
-    for cid, r in res.items():
+    for cid, r in sorted(res.items()):
         ncompiled += 1
         if r["rc"] != 0:
             i = int(cid.split(":")[0])
             p = inputs[i]
             name = os.path.basename(p) if "codegen" in p else "gen:" + os.path.basename(os.path.dirname(p))
-            first = next((l for l in (r.get("stderr_head", "") + r["stderr"]).splitlines() if "error" in l), r["stderr"][-200:])
-            first = re.sub(r"/verif/work/C31/out/\d+/", "", first)
-            where = "exports-stub-header" if re.match(r"\s*exports-[^:]*\.h:", first) else re.sub(r"[0-9]+", "N", first.split(":")[0].strip())
-            key = f"g++:{where}:" + re.sub(r"[0-9]+", "N", first.split("error:")[-1].strip())[:100]
-            out.violation(key, f"generated C++ for {name} does not type-check: {first[:300]}",
-                          {"wit": open(p).read() if os.path.isfile(p) else p, "stderr": r["stderr"][-1500:]})
+            scope = name[4:] if name.startswith("gen:adv-") else ("gen" if name.startswith("gen:") else name)
+            err = r.get("stderr_head", "") + r["stderr"]
+            # every error g++ reports for the file (at most 4: -fmax-errors) is a violation of its own, identified by the world
+            # (adversarial worlds and corpus files by name), the file and the message (which names the offending token / type)
+            for where, msg, site, line in gxx_errors(err) or [("?", err[-200:], "", err[-200:])]:
+                out.violation(f"g++:{scope}:{where}:{msg[:100]}", f"generated C++ for {name} does not type-check: {line[:300]}",
+                              {"wit": open(p).read() if os.path.isfile(p) else p, "stderr": err[-2500:]})
     shutil.rmtree(os.path.join(wd, "out"), ignore_errors=True)
     write_ndjson(os.path.join(wd, "violations.ndjson"), [{"key": k, "desc": d, "wit": r.get("wit", "")[:1500]} for k, d, r in out.violations])
     rc, unlisted = out.finish()
